@@ -139,5 +139,31 @@ CHECKS = {
                 "must equal those of the run without the insertion. Universes include free-input variants.",
         "ref": "DESIGN.md §3 C16", "note": TB, "technique": "explicit-state model checking: exhaustive insertion points over explored API histories with a differential oracle",
     },
+    "C17": {
+        "text": "The full presentation-transformation group on all 2-variable networks (3 name schemes incl. a sort-order reversal x 4 "
+                "negation patterns x 4 formula styles x 3 file formats) and its generators on kernel / 3-variable universes are "
+                "enumerated; the library's full diagram, minimal trap spaces and attractors on each presentation are mapped back through "
+                "the transformation and compared with the reference model of the original network; name sanitization is checked on all "
+                "ordered tuples of a pool of 8 awkward names (every collision pattern).",
+        "ref": "DESIGN.md §3 C17", "note": TB + " AEON's parsers/writers are trusted to implement their formats.",
+        "technique": "explicit-state model checking: exhaustive enumeration of inputs x presentation transformations against a presentation-independent reference model",
+    },
+    "C18": {
+        "text": "All unions of two canonical 2-variable networks and of kernel networks (attractors and minimal trap spaces vs pairwise "
+                "products, by three strategies), every input valuation of all input-conditioned networks (sub-diagram below the "
+                "valuation's node vs the diagram of the network with constant inputs, attractors by three strategies), and a "
+                "differential run of build() against AEON's symbolic attractor enumeration on every repository model up to a size / "
+                "time cap (unfinished models are listed, never counted as passed).",
+        "ref": "DESIGN.md §3 C18", "note": TB + " Part (c) is a differential check on a fixed corpus and trusts AEON's Attractors.attractors.",
+        "technique": "explicit-state model checking: exhaustive enumeration of composed input universes, plus a differential corpus run against an independent symbolic explorer",
+    },
+    "C19": {
+        "text": "Environment enumeration: one interpreter process per PYTHONHASHSEED value 0..255 (768 thorough) dumps every (network, "
+                "strategy) of a batch; the observed iteration order of each variable-name set is recorded and every permutation of every "
+                "<=4-element name set must have been observed (so hash-order nondeterminism is exhausted, not sampled); in-process: "
+                "second run and run after every entry of a preceding-call menu. All dumps of one (network, strategy) must be byte-identical.",
+        "ref": "DESIGN.md §3 C19", "note": TB,
+        "technique": "explicit-state model checking of the environment: exhaustive enumeration of hash seeds (until all set iteration orders are covered) and preceding-call sequences",
+    },
 }
 NOT_CLAIMED = {f"C{i:02d}": "not claimed yet: check under construction (see DESIGN.md §9 for the build order)" for i in range(1, 21)}
